@@ -13,7 +13,8 @@ from vsym import triggers
 from vsym.pathex import And, Eq, Or
 from vsym.runner import Ob
 
-ORDER = ["dup1.py", "dup2.py", "strg1.py", "strg2.py", "nest.py", "magic.ts", "printy.js", "unwrap.rs"]
+ORDER = ["dup1.py", "dup2.py", "strg1.py", "strg2.py", "nest.py", "magic.ts", "printy.js", "unwrap.rs"] + \
+    ["extra%02d.py" % i for i in range(26)]
 _P = {}
 
 
@@ -22,6 +23,9 @@ def _proj():
         d = tempfile.mkdtemp(prefix="c07proj-")
         atexit.register(shutil.rmtree, d, True)
         triggers.write_project(d, names=set(ORDER))
+        for i in range(26):   # cheap per-file findings, every file different
+            (Path(d) / "src" / ("extra%02d.py" % i)).write_text(
+                "def price%d(q):\n    print(q)\n    return q * %d\n" % (i, 7001 + i))
         _P["d"] = Path(d)
     return _P["d"]
 
@@ -68,7 +72,7 @@ def make_h_api(nmax):
     def h(ctx):
         import src.orchestrator.core as core
         d = _proj()
-        n = int(ctx.int("nfiles", 0, nmax))
+        n = ctx.pick("nfiles", nmax)
         files = [d / "src" / x for x in ORDER[:n]]
         given = ctx.flag("workers_given")
         w = ctx.int("max_workers", 1, 16) if given else None
@@ -170,14 +174,14 @@ ASSUMPTIONS = (
 
 
 def obligations(tier):
-    nmax = 6 if tier == "quick" else 8
+    nmax = (0, 1, 2, 3, 4, 6, 8, 18, 33) if tier == "quick" else tuple(range(0, 13)) + (15, 16, 17, 18, 19, 24, 31, 32, 33, 34)
     return [
         Ob(name="K1-lint_files_parallel-vs-lint_files", engine="pathex", harness=make_h_api(nmax),
            functions=["Orchestrator.lint_files_parallel", "_execute_parallel_linting", "_lint_file_worker",
                       "_collect_parallel_results", "_extract_violations_from_future", "_finalize_rules",
                       "Orchestrator.lint_files", "Violation.to_dict/from_dict", "all registered rules (incl. sqlite-backed dry, stringly-typed)"],
-           bounds="max_workers in [1,16] symbolic (or None with cpu_count in [1,16] symbolic); number of files 0..%d "
-                  "(forked); completion order over permutations of the first 3 futures + reversal of the rest (forked)" % nmax,
+           bounds="max_workers in [1,16] symbolic (or None with cpu_count in [1,16] symbolic); number of files in %s "
+                  "(forked; 2 x workers threshold on both sides for every worker count); completion order over permutations of the first 3 futures + reversal of the rest (forked)" % (nmax,),
            timeout=600, workers=14, must_cover=("parallel-path", "sequential-fallback"),
            stubs=("InProcessExecutor for ProcessPoolExecutor", "scripted as_completed", "cpu_count symbolic")),
         Ob(name="K1b-cli-routing-parallel-flag", engine="pathex", harness=h_cli_routing,
